@@ -36,10 +36,16 @@ class BaseGotranODECodePrinter(StrPrinter):
             ">": "Gt",
             ">=": "Ge",
             "==": "Eq",
-            "!=": "Ne",
         }
+        if expr.rel_op == "!=":
+            # There is no 'Ne' in the grammar
+            return f"Not(Eq({lhs}, {rhs}))"
         relop = relop2str[expr.rel_op]
         return f"{relop}({lhs}, {rhs})"
+
+    def _print_Exp1(self, expr):
+        # The grammar has no name for Euler's number
+        return "exp(1)"
 
     def _print_Or(self, expr):
         return f"Or({', '.join(self._print(a) for a in expr.args)})"
